@@ -626,3 +626,72 @@ def partial_output_before_blocker(a: dict[str, Any], b: dict[str, Any]) -> bool:
     a_in_b = all(_subseq(oa["per_file"].get(f, []), ob["per_file"].get(f, [])) for f in files)
     b_in_a = all(_subseq(ob["per_file"].get(f, []), oa["per_file"].get(f, [])) for f in files)
     return a_in_b or b_in_a
+
+
+DEFINITION_NOTE = __import__("re").compile(r': note: ".*" defined (in ".*"|here)$')
+
+
+def strip_definition_notes(obs: dict[str, Any]) -> tuple[dict[str, Any], int]:
+    n = 0
+    per_file: dict[str, list[str]] = {}
+    for f, lines in obs["per_file"].items():
+        keep = [l for l in lines if not DEFINITION_NOTE.search(l)]
+        n += len(lines) - len(keep)
+        if keep:
+            per_file[f] = keep
+    return dict(obs, per_file=per_file), n
+
+
+def soft_difference(a: dict[str, Any], b: dict[str, Any]) -> str | None:
+    """If runs a and b differ only by known, individually recorded classes of lines (known_findings.json),
+    return the class name ('+'-joined when they compose), else None.
+
+      only_once_note                 per-process only_once notes (duplicated / attached to another file)
+      definition_note_not_cached     '"f" defined in "m"' notes need CallableType.definition, which is
+                                     deliberately not serialised (mypy/types.py: "We don't serialize the
+                                     definition (only used for error messages)"): absent when the callee's
+                                     module comes from the cache
+      partial_output_before_blocker  both runs aborted by a blocking error; one printed a prefix of the other
+    """
+    if same_observable(a, b):
+        return None
+    texts = sorted(set(a.get("only_once", [])) | set(b.get("only_once", [])))
+
+    def reduced(classes: tuple[str, ...]) -> tuple[dict[str, Any], dict[str, Any], bool]:
+        oa, ob = observable(a), observable(b)
+        touched = True
+        if "only_once_note" in classes:
+            oa, ra, ea = strip_only_once(oa, texts)
+            ob, rb, eb = strip_only_once(ob, texts)
+            touched = touched and (ra + rb) > 0
+            if (ea or eb) and {oa["status"], ob["status"]} <= {0, 1}:
+                oa["status"] = ob["status"] = None
+        if "definition_note_not_cached" in classes:
+            oa, na = strip_definition_notes(oa)
+            ob, nb = strip_definition_notes(ob)
+            touched = touched and (na + nb) > 0
+        return oa, ob, touched
+
+    def blocker_prefix(oa: dict[str, Any], ob: dict[str, Any]) -> bool:
+        if oa["status"] != 2 or ob["status"] != 2 or oa["stderr"] != ob["stderr"]:
+            return False
+        marker = "errors prevented further checking"
+        if not any(marker in l for l in oa["other"]) or not any(marker in l for l in ob["other"]):
+            return False
+        files = set(oa["per_file"]) | set(ob["per_file"])
+        a_in_b = all(_subseq(oa["per_file"].get(f, []), ob["per_file"].get(f, [])) for f in files)
+        b_in_a = all(_subseq(ob["per_file"].get(f, []), oa["per_file"].get(f, [])) for f in files)
+        return a_in_b or b_in_a
+
+    combos: list[tuple[str, ...]] = [(), ("only_once_note",), ("definition_note_not_cached",), ("only_once_note", "definition_note_not_cached")]
+    for classes in combos:
+        if "only_once_note" in classes and not texts:
+            continue
+        oa, ob, touched = reduced(classes)
+        if not touched:
+            continue
+        if classes and oa == ob:
+            return "+".join(classes)
+        if blocker_prefix(oa, ob):
+            return "+".join(classes + ("partial_output_before_blocker",))
+    return None
